@@ -76,6 +76,7 @@ async fn request(ctx: &Arc<Ctx>, proto: Proto, handler: Handler, via: Via, fwd: 
                     let n = left.min(chunk.len());
                     if wr.write_all(&chunk[..n]).await.is_err() { break; }
                     left -= n;
+                    if slow.1 >= 1000 { let _ = wr.flush().await; tokio::time::sleep(Duration::from_millis(slow.1)).await; }
                 }
                 let _ = wr.flush().await;
                 tokio::time::sleep(Duration::from_secs(3600)).await;
@@ -102,7 +103,7 @@ async fn request(ctx: &Arc<Ctx>, proto: Proto, handler: Handler, via: Via, fwd: 
                             obs.body_nonzero |= buf[..n].iter().any(|b| *b != 0);
                         }
                         chunks += 1;
-                        if slow.1 > 0 && chunks % 64 == 0 { tokio::time::sleep(Duration::from_millis(slow.1)).await; }
+                        if slow.1 > 0 && chunks % (if slow.1 >= 1000 { 4 } else { 64 }) == 0 { tokio::time::sleep(Duration::from_millis(slow.1)).await; }
                     }
                     Ok(Err(e)) => { obs.error = Some(e.to_string()); break; }
                     Err(_) => { if head_len.is_none() { obs.error = Some("no response".into()); } break; }
@@ -127,6 +128,7 @@ async fn request(ctx: &Arc<Ctx>, proto: Proto, handler: Handler, via: Via, fwd: 
                                     let c = c.min(n);
                                     if stream.send_data(Bytes::from(vec![0x5au8; c]), left == c).is_err() { break; }
                                     left -= c;
+                                    if slow.1 >= 1000 { tokio::time::sleep(Duration::from_millis(slow.1 / 4)).await; }
                                 }
                                 _ => break,
                             }
@@ -143,7 +145,7 @@ async fn request(ctx: &Arc<Ctx>, proto: Proto, handler: Handler, via: Via, fwd: 
                                         obs.body_len += b.len();
                                         obs.body_nonzero |= b.iter().any(|x| *x != 0);
                                         chunks += 1;
-                                        if slow.1 > 0 && chunks % 16 == 0 { tokio::time::sleep(Duration::from_millis(slow.1)).await; }
+                                        if slow.1 > 0 && chunks % (if slow.1 >= 1000 { 4 } else { 16 }) == 0 { tokio::time::sleep(Duration::from_millis(slow.1)).await; }
                                         let _ = body.flow_control().release_capacity(b.len());
                                     }
                                     Ok(Some(Err(e))) => { obs.error = Some(e.to_string()); break; }
@@ -240,6 +242,21 @@ fn speedtest_part(rep: &Arc<Reporter>, args: &Args, ctx: &Arc<Ctx>) {
                 }
                 if fwd.egress_count() != 0 { rep.violation("speedtest request caused egress", json!({"path":full})); }
             }
+            // a reader so slow that the download outlasts the handler's request timeout (10 s) several times over:
+            // the body must still be exactly N MiB (client read pacing is quantified over)
+            for (path, n) in [("/1mb.bin", 1usize), ("/2mb.bin", 2)] {
+                id += 1;
+                let fwd = RecFwd::new(|_| Outcome::Echo);
+                let full = if via == Via::MainHost { format!("/speed{}", path) } else { path.to_string() };
+                let req = Req::new("GET", &format!("https://main.test{}", full));
+                let slow = (16384usize, 1500u64);
+                let o = rt.block_on(request(ctx, proto, Handler::Speedtest, via, &fwd, &req, 0, slow, id));
+                rep.evals(1);
+                rep.distinct(common::fnv(format!("dl-slow|{:?}|{:?}|{}", proto, via, path).as_bytes()));
+                let w = json!({"kind":"speedtest-download","protocol":format!("{:?}", proto),"via":format!("{:?}", via),"path":full,"read_pattern":"16 KiB reads, 1.5 s pause every 4 reads (download lasts > 20 virtual seconds; handler timeout 10 s)","status":o.status,"body_len":o.body_len,"expected_body_len":n * MIB,"error":o.error});
+                if o.status == Some(200) && o.body_len == n * MIB && !o.body_nonzero { rep.tally(&format!("download {:?} {:?}: exact body length with a reader slower than the request timeout", proto, via), 1); }
+                else { rep.violation(&format!("download body length wrong with a reader slower than the handler's request timeout ({:?} {:?})", proto, via), w); }
+            }
             // uploads
             let max = 120 * MIB;
             let uploads: Vec<(&str, &str, Option<String>, usize, Option<u16>)> = vec![
@@ -275,6 +292,21 @@ fn speedtest_part(rep: &Arc<Reporter>, args: &Args, ctx: &Arc<Ctx>) {
                     None => rep.tally("upload: Content-Length 0 (either)", 1),
                 }
             }
+            {
+                // a paced upload that lasts longer than the handler's request timeout (10 s): consumed and answered 200 all the same
+                id += 1;
+                let fwd = RecFwd::new(|_| Outcome::Echo);
+                let full = if via == Via::MainHost { "/speed/upload.html".to_string() } else { "/upload.html".to_string() };
+                let n = 20 * 64 * 1024;
+                let mut req = Req::new("POST", &format!("https://main.test{}", full)).header("content-length", n.to_string().as_bytes());
+                req.end_stream = false;
+                let o = rt.block_on(request(ctx, proto, Handler::Speedtest, via, &fwd, &req, n, (65536, 1500), id));
+                rep.evals(1);
+                rep.distinct(common::fnv(format!("ul-slow|{:?}|{:?}", proto, via).as_bytes()));
+                let w = json!({"kind":"speedtest-upload","protocol":format!("{:?}", proto),"via":format!("{:?}", via),"path":full,"content_length":n,"pacing":"one 64 KiB piece per 1.5 virtual seconds (upload lasts ~30 s; handler timeout 10 s)","status":o.status,"error":o.error});
+                if o.status == Some(200) { rep.tally(&format!("upload {:?} {:?}: paced upload longer than the request timeout answered 200", proto, via), 1); }
+                else { rep.violation(&format!("an upload lasting longer than the handler's request timeout was not answered 200 ({:?} {:?})", proto, via), w); }
+            }
             if args.thorough() && via == Via::Direct {
                 // the documented maximum is accepted and consumed
                 id += 1;
@@ -299,6 +331,8 @@ fn cl_class(cl: &Option<String>) -> &'static str {
 }
 
 /// Reverse proxy against a real loopback origin (real time)
+const RP_BIG: usize = 1 << 20;
+
 fn reverse_proxy_part(rep: &Arc<Reporter>, args: &Args) {
     let dir = env::work_dir(&args.root, "c18");
     let rt = env::rt_current();
@@ -319,6 +353,15 @@ fn reverse_proxy_part(rep: &Arc<Reporter>, args: &Args) {
                         loop {
                             match s.read(&mut buf).await { Ok(0) | Err(_) => { seen.lock().unwrap().push(got); return; } Ok(n) => got.extend_from_slice(&buf[..n]) }
                             if got.windows(4).any(|w| w == b"\r\n\r\n") { break; }
+                        }
+                        if got.starts_with(b"GET /rp/big") {
+                            // a large position-coded response body (the relay must deliver it unchanged)
+                            seen.lock().unwrap().push(got.clone());
+                            let _ = s.write_all(format!("HTTP/1.1 200 OK\r\nContent-Length: {}\r\n\r\n", RP_BIG).as_bytes()).await;
+                            let body = common::prng::coded_stream(0xb16, 1, 0, RP_BIG);
+                            let _ = s.write_all(&body).await;
+                            let _ = tokio::time::timeout(Duration::from_secs(60), s.read(&mut buf)).await;
+                            return;
                         }
                         let _ = s.write_all(b"HTTP/1.1 101 Switching Protocols\r\nUpgrade: websocket\r\nX-Origin: yes\r\n\r\nWELCOME").await;
                         let head_end = got.windows(4).position(|w| w == b"\r\n\r\n").unwrap() + 4;
@@ -408,6 +451,103 @@ fn reverse_proxy_part(rep: &Arc<Reporter>, args: &Args) {
                     rep.tally(&format!("reverse proxy {:?} allow_private={}: request, response and payload relayed", via, allow_private), 1);
                 }
             }
+        }
+        // the origin's response relayed to a client that reads more slowly than the session's
+        // request timeout (set to 1 s here): every byte must still arrive, in order
+        for via in [Via::Direct, Via::MainHost] {
+            id += 1;
+            let ctx = Arc::new(env::make_ctx(&dir, env::CtxOpts {
+                clients: vec![("u".into(), "p".into())],
+                registry_authenticator: true,
+                tweak: Some(Box::new(move |b| b.connection_establishment_timeout(Duration::from_secs(1)).reverse_proxy(trusttunnel::settings::ReverseProxySettings::builder().server_address(origin_addr).unwrap().path_mask("/rp".into()).build().unwrap()))),
+                ..Default::default()
+            }));
+            seen.lock().unwrap().clear();
+            vnet::take_connects();
+            let fwd = RecFwd::new(|_| Outcome::Echo);
+            let client = match via {
+                Via::MainHost => open_session(&ctx, Proto::H1, How::Tunnel(Fwd::Scripted(fwd.clone()), Policy::Default), "main.test", false, id).client,
+                Via::Direct => {
+                    let (client, server_io) = tokio::io::duplex(64 * 1024);
+                    let ctx2 = ctx.clone();
+                    tokio::spawn(async move {
+                        let peer: SocketAddr = CLIENT_PEER.parse().unwrap();
+                        if let Ok(codec) = make_codec(&ctx2, Proto::H1, server_io, peer, id) { run_reverse_proxy(&ctx2, codec, "rp.test", id).await; }
+                    });
+                    client
+                }
+            };
+            let (mut rd, mut wr) = tokio::io::split(client);
+            let _ = wr.write_all(b"GET /rp/big HTTP/1.1\r\nHost: rp.test\r\nUpgrade: websocket\r\nConnection: Upgrade\r\n\r\n").await;
+            let mut got: Vec<u8> = vec![];
+            let mut buf = vec![0u8; 32 * 1024];
+            let started = std::time::Instant::now();
+            let mut head_end = None;
+            loop {
+                match tokio::time::timeout(Duration::from_secs(8), rd.read(&mut buf)).await {
+                    Ok(Ok(n)) if n > 0 => got.extend_from_slice(&buf[..n]),
+                    _ => break,
+                }
+                if head_end.is_none() { head_end = got.windows(4).position(|w| w == b"\r\n\r\n").map(|p| p + 4); }
+                if let Some(h) = head_end { if got.len() >= h + RP_BIG { break; } }
+                // ~128 KiB per second: the 1 MiB body takes about 8 s, the session timeout fires several times meanwhile
+                tokio::time::sleep(Duration::from_millis(250)).await;
+            }
+            drop(wr);
+            rep.evals(1);
+            rep.distinct(common::fnv(format!("rp-slow|{:?}", via).as_bytes()));
+            let body = head_end.map(|h| got[h..].to_vec()).unwrap_or_default();
+            let want = common::prng::coded_stream(0xb16, 1, 0, RP_BIG);
+            let first_bad = body.iter().zip(want.iter()).position(|(a, b)| a != b);
+            let w = json!({"kind":"reverse-proxy","case":"slow reader","via":format!("{:?}", via),"session_timeout_secs":1,"read_pattern":"32 KiB per 250 ms","elapsed_ms":started.elapsed().as_millis() as u64,
+                "head":String::from_utf8_lossy(&got[..head_end.unwrap_or(got.len().min(200))]).to_string(),"body_len":body.len(),"expected_body_len":RP_BIG,"first_differing_offset":first_bad});
+            if head_end.is_none() || body.len() != RP_BIG || first_bad.is_some() {
+                rep.violation(&format!("origin's response was not relayed unchanged to a client reading more slowly than the session's request timeout ({:?})", via), w);
+            } else { rep.tally(&format!("reverse proxy {:?}: 1 MiB response relayed intact to a reader slower than the session timeout", via), 1); }
+        }
+        // (a) a request body that arrives in the same write as the head must reach the origin;
+        // (b) a path that merely *contains* the mask is not a reverse-proxy request
+        for (name, via, raw, must_reach, want_body) in [
+            ("POST with its body in the same write as the head", Via::Direct, &b"POST /rp/submit HTTP/1.1\r\nHost: rp.test\r\nContent-Length: 11\r\n\r\nhello world"[..], true, Some(&b"hello world"[..])),
+            ("path containing the mask elsewhere than at its start", Via::MainHost, &b"GET /app/rp/x HTTP/1.1\r\nHost: main.test\r\n\r\n"[..], false, None),
+            ("path equal to the mask", Via::MainHost, &b"GET /rp HTTP/1.1\r\nHost: main.test\r\nUpgrade: websocket\r\nConnection: Upgrade\r\n\r\n"[..], true, None),
+        ] {
+            id += 1;
+            let ctx = Arc::new(env::make_ctx(&dir, env::CtxOpts {
+                clients: vec![("u".into(), "p".into())],
+                registry_authenticator: true,
+                tweak: Some(Box::new(move |b| b.reverse_proxy(trusttunnel::settings::ReverseProxySettings::builder().server_address(origin_addr).unwrap().path_mask("/rp".into()).build().unwrap()))),
+                ..Default::default()
+            }));
+            seen.lock().unwrap().clear();
+            vnet::take_connects();
+            let fwd = RecFwd::new(|_| Outcome::Echo);
+            let client = match via {
+                Via::MainHost => open_session(&ctx, Proto::H1, How::Tunnel(Fwd::Scripted(fwd.clone()), Policy::Default), "main.test", false, id).client,
+                Via::Direct => {
+                    let (client, server_io) = tokio::io::duplex(256 * 1024);
+                    let ctx2 = ctx.clone();
+                    tokio::spawn(async move {
+                        let peer: SocketAddr = CLIENT_PEER.parse().unwrap();
+                        if let Ok(codec) = make_codec(&ctx2, Proto::H1, server_io, peer, id) { run_reverse_proxy(&ctx2, codec, "rp.test", id).await; }
+                    });
+                    client
+                }
+            };
+            let (mut rd, mut wr) = tokio::io::split(client);
+            let _ = wr.write_all(raw).await;
+            let (got, _) = read_until_quiet(&mut rd, Duration::from_millis(700), 1 << 20).await;
+            drop(wr);
+            tokio::time::sleep(Duration::from_millis(300)).await;
+            rep.evals(1);
+            rep.distinct(common::fnv(format!("rp-extra|{}", name).as_bytes()));
+            let origin_saw = seen.lock().unwrap().clone();
+            let origin_text = origin_saw.first().map(|b| String::from_utf8_lossy(b).to_string()).unwrap_or_default();
+            let w = json!({"kind":"reverse-proxy","case":name,"origin_received":origin_text.chars().take(300).collect::<String>(),"client_received":String::from_utf8_lossy(&got).chars().take(200).collect::<String>()});
+            if must_reach && origin_saw.is_empty() { rep.violation(&format!("reverse-proxy request not delivered to the origin: {}", name), w); }
+            else if !must_reach && !origin_saw.is_empty() { rep.violation("a request whose path only contains the reverse-proxy mask (not at its start) was proxied to the origin", w); }
+            else if let Some(b) = want_body { if !origin_text.ends_with(&String::from_utf8_lossy(b).to_string()) { rep.violation("request body sent together with the head did not reach the reverse-proxy origin", w); } else { rep.tally("reverse proxy: body in the same write as the head reached the origin", 1); } }
+            else { rep.tally(&format!("reverse proxy: {} -> {}", name, if must_reach { "proxied" } else { "not proxied" }), 1); }
         }
     });
 }
